@@ -108,6 +108,20 @@ Theorem C12_delta_stale_width_inside :
 Proof. exact (conj delta_stale_width_spec (conj delta_stale_width_ok eq_refl)). Qed.
 Print Assumptions C12_delta_stale_width_inside.
 
+(* ... and the class behind the example, for EVERY stale width byte 1..255, every block shape and every miniblock reader:
+   with exactly one value left, a miniblock whose width byte is not zero is NOT unpacked - two steps of the decoder's
+   state machine store the last value and finish, consuming no input.  (False for a decoder without the `count > 1` guard.) *)
+Theorem C12_stale_miniblock_reads_nothing : forall isz vpm mpb reader s ws i md w v,
+  u_ph s = PMini ws i md -> i < mpb -> get_nth ws i = Some w -> w <> 0 ->
+  u_count s = 1%Z -> 0 < vpm -> 0 < isz ->
+  o_loc (u_o s) + isz <= o_nbytes (u_o s) -> o_nbytes (u_o s) < 2 ^ 32 ->
+  o_loc (u_o s) mod isz = 0 ->
+  get_nth (o_items (u_o s)) (o_loc (u_o s) / isz) = Some v ->
+  exists s1 s2, u_step isz vpm mpb reader s = Ok s1 /\ u_step isz vpm mpb reader s1 = Ok s2 /\
+                u_ph s2 = PDone /\ u_inp s2 = u_inp s /\ u_used s2 = u_used s.
+Proof. exact stale_miniblock_reads_nothing. Qed.
+Print Assumptions C12_stale_miniblock_reads_nothing.
+
 Example C12_nonvacuous :
   c_read_bitpacked [136; 198; 250] 3 3 12 4 = Ok {| d_vals := [0; 1; 2]; d_used := 3; d_written := 12 |} /\
   c_read_rle [7] 10 3 8 4 = Ok {| d_vals := [7; 7]; d_used := 1; d_written := 8 |}.
